@@ -32,8 +32,8 @@ def avoid_zero_division(f: callable) -> callable:
 
         """
 
-        x += c.EPSILON
-        y += c.EPSILON
+        x = x + c.EPSILON
+        y = y + c.EPSILON
 
         return f(x, y)
 
